@@ -199,17 +199,26 @@ func ReceiveSession(ctx context.Context, rw io.ReadWriter, state SessionState, n
 
 func setDeadline(ctx context.Context, conn net.Conn) context.CancelFunc {
 	cancelCtx, cancel := context.WithCancel(context.Background())
+	done := make(chan struct{})
 	go func() {
+		defer close(done)
 		select {
 		case <-ctx.Done():
 			/* #nosec */
 			conn.SetDeadline(aLongTimeAgo)
+			// Keep the deadline expired until the caller is done so that not only
+			// an operation that happens to be blocked right now, but everything it
+			// still tries to do on the connection fails.
+			<-cancelCtx.Done()
 			/* #nosec */
 			conn.SetDeadline(time.Time{})
 		case <-cancelCtx.Done():
 		}
 	}()
-	return cancel
+	return func() {
+		cancel()
+		<-done
+	}
 }
 
 func setWriteDeadline(ctx context.Context, conn net.Conn) context.CancelFunc {
